@@ -40,7 +40,7 @@ claim("C02",
       "is_normal_flow between consecutive children, and-or short-circuit skips, function/script boundaries consume return, break/continue "
       "never leave a function, subshells return an exit code only, pipeline stages run in a subshell hand back a status only, `!` leaves the "
       "status of return/exit alone, every selected case item assigns the status, and break/continue raise loop control flow only under a "
-      "loop-activity test (not so today: two known findings). A necessary condition for bash-equal traces on all programs.",
+      "loop-activity test (not so today: two known findings); in the grammar, `for x in` with an empty list still builds a list. A necessary condition for bash-equal traces on all programs.",
       "Trusted: rustc MIR. Not decided: equality of the executed trace and every intermediate $? with bash; the levels-1 arithmetic.",
       ST + "sibling protocol cross-check on MIR CFGs (dominance, must-pass-through, loop structure)", "DESIGN.md §3 C02")
 claim("C03",
@@ -48,7 +48,8 @@ claim("C03",
       "Execute::execute on an if/elif/while/until condition vs body; conditional stores in and-or lists; bang), that errexit and the ERR "
       "trap are applied at exactly one site under the right guards, that command substitution drops errexit on the clone under the "
       "inherit option, that ExecutionParameters are only ever cloned outside the reviewed top-level entry points (so the exemption flag "
-      "is inherited by nested contexts), and that the ${…} operator → unset-tolerance table equals the reference.",
+      "is inherited by nested contexts), that the flag is only ever set or copied, never cleared, that the undefined-value result is built only "
+      "by the nounset policy point, and that the ${…} operator → unset-tolerance table equals the reference.",
       "Trusted: rustc MIR; the AST field of the receiver identifies the syntactic context. Not decided: that the shell stops at the same "
       "command as bash for all programs and option toggles; pipefail status arithmetic.",
       ST + "def-use + dominance on MIR, who-may-call, match-arm table extraction", "DESIGN.md §3 C03")
@@ -57,7 +58,8 @@ claim("C09",
       "&mut ShellValue, that unset and whole-variable replacement consult readonly and unset leaves its scope walk only through the "
       "readonly-checking remover, that the command scope guard / post_execute pop is "
       "reached on every SimpleCommand dispatch path, that enter/leave_function pair, and that child environments come from one "
-      "env_clear + iter_exported site.",
+      "env_clear + iter_exported site, and that every yes/no test of the array kind counts the declared-but-unassigned kind (the -A/-a attribute "
+      "shapes the first assignment).",
       "Trusted: rustc MIR and field resolution. Not decided: dynamic-scoping visibility, attribute effects (-i -l -u), bash equality. "
       "Known finding: ShellEnvironment::add shadows readonly variables (local / temporary assignments).",
       ST + "field-write inventory with dominating-guard check, PAIR, who-may-call", "DESIGN.md §3 C09")
@@ -67,7 +69,7 @@ claim("C10",
       "truncate and uses create_new under is_file, that every path probed or opened during redirect set-up was resolved against the shell's "
       "working directory (the noclobber test inspects the file that is opened), that the here-document writer is dropped before Ok, and "
       "that the tokenizer reads the here-document being collected from the front of its FIFO (tab stripping / end tag never taken from the "
-      "last-declared document).",
+      "last-declared document), and that a failing redirection is handled by the command that owns it (it never feeds the executor's own `?`).",
       "Trusted: rustc MIR; Rust ownership (an owned ExecutionParameters dies with the command). Not decided: left-to-right descriptor "
       "semantics, file contents, here-document tokenizer behaviour.",
       ST + "borrow-root ownership analysis, who-may-call, branch-exclusive reachability", "DESIGN.md §3 C10")
@@ -75,7 +77,7 @@ claim("C11",
       "Decides start-all-before-wait (no wait/poll/join in the spawn loop; spawn dominates wait), drain-before-join and writer-moved for "
       "command substitution, one status per stage, that no loop UTF-8-decodes the buffer a read call fills (stream data is decoded once), "
       "that the read builtin takes one byte per call from its descriptor and that OpenFile::read does not go through a buffering reader "
-      "(it does for the process's stdin: known finding), "
+      "(it does for the process's stdin: known finding), that the pipefail bookkeeping depends on !is_success() alone, "
       "and that every inline call of a run-to-completion interpreter from the stage dispatch functions is under "
       "ShellForCommand::ParentShell. The last rule reports the two known deadlock findings.",
       "Trusted: rustc MIR; a closure passed to tokio::spawn/spawn_blocking runs concurrently, any other call inline. Not decided: byte "
@@ -123,7 +125,8 @@ claim("C04",
       "Decides the quoting-tag mechanism on all paths: tag maps (Unsplittable→Literal, Splittable→Pattern), the tag constructed by every "
       "expand_word_piece arm against a reference table, make_unsplittable on everything leaving double-quote processing, restoration "
       "of in_double_quotes on every path, split_fields touching only Splittable pieces, literal regex pieces escaped, glob activity asked "
-      "only of unquoted (Pattern) pieces, joins of fields are positional (no separator placed by accumulated emptiness), and a taint rule: "
+      "only of unquoted (Pattern) pieces, joins of fields are positional (no separator placed by accumulated emptiness), a here-string gets its "
+      "newline unconditionally, and a taint rule: "
       "no text derived from variable values / positional parameters / command-substitution output reaches a word or program parser "
       "inside brush_core::expansion.",
       "Trusted: rustc MIR; taint is not propagated through the long-lived &mut Shell / &mut WordExpander receivers. Not decided: "
@@ -196,7 +199,7 @@ claim("C05",
       "(basic expansion dominates field splitting dominates pathname expansion, each fed with the previous stage's value; inside basic "
       "expansion brace ≺ parse ≺ per-piece expansion ≺ coalescing), that the glob stage is bypassed only on the two glob-disabling option "
       "edges, that field splitting has the pipeline as its only caller and closes a field by its piece count (an empty quoted piece keeps its "
-      "field), and that no stage glues several generated words into one string "
+      "field), that the dot-file test of a glob component looks at its first piece only, and that no stage glues several generated words into one string "
       "that is parsed as a single word again (reported today for brace expansion: known finding, `IFS=$'\\n'; set -- {a,b}; echo $#` "
       "prints 1). Necessary conditions for 'expansions happen in the same order, fields split at the same places'.",
       "Trusted: rustc MIR; bash's documented stage order. Known finding: brace-expansion words are joined with a blank and re-parsed "
